@@ -106,6 +106,11 @@ def call_pred(sc, tree, ph, txt):
 def signature_pred(sc, tree, ph, txt):
     """with the real signature inlined: every argument child is in argument position of the outermost call"""
     if sc.outcome == "raise":
+        # a compile-time rejection (self.fail -> TemplateAssertionError, e.g. a keyword colliding with a
+        # compiler-added one) emits no call at all: nothing to gate
+        from jinja2.exceptions import TemplateSyntaxError
+        if sc.value.cls is not None and issubclass(sc.value.cls, TemplateSyntaxError):
+            return []
         return [f"raises {sc.value!r}"]
     t = strip_async(tree)
     if not isinstance(t, ast.Call):
